@@ -35,6 +35,16 @@ func vfMakePacket(ssrc uint32, w uint16, id, n, shape int) (*rtp.Header, []byte)
 		h.Extension = true
 		h.ExtensionProfile = 0xBEDE
 		_ = h.SetExtension(5, []byte{byte(id % 256), 7})
+	case 5: // contributing sources but no header extension (e.g. mixer output)
+		h.CSRC = []uint32{33, 44, 55}
+	case 6: // two-byte header extension profile (RFC 8285) with an id that the one-byte form cannot carry
+		h.Extension = true
+		h.ExtensionProfile = 0x1000
+		_ = h.SetExtension(20, []byte{byte(id % 256), 9, 9})
+	case 7: // two-byte profile, small id
+		h.Extension = true
+		h.ExtensionProfile = 0x1000
+		_ = h.SetExtension(3, []byte{byte(id % 256)})
 	case 4:
 		if n > 0 && n < 190 {
 			h.Padding = true
